@@ -515,6 +515,19 @@ Proof.
   apply Nat.eqb_eq in Er. apply Nat.eqb_eq in Ef. subst. exists st, v. repeat split; auto.
 Qed.
 
+(* at an action call: the blocks the plain N/D scan sees open are exactly the state-block frames of the checker's stack
+   (so the innermost one was opened in the frame of the acting rule or of an enclosing rule), and the rest of the log closes them *)
+Theorem eval_apply_blocks f d r c o c' pre fam r' b e post :
+  eval G C f d r c = Res o c' (pre ++ EApply fam r' b e :: post) ->
+  exists st v, runm None [FRoot (dv_of d)] pre = Some st /\ own C st = Some (r', v) /\
+               blocks [] pre = Some (fbs st) /\ blocks (fbs st) post = Some [].
+Proof.
+  intros He. destruct (eval_apply_scoped _ _ _ _ _ _ _ _ _ _ _ _ He) as (st & v & Hr & Ho & _ & _).
+  destruct (eval_blocks _ _ _ _ _ _ _ _ He) as (bs & Hb1 & Hb2).
+  pose proof (run_blocks _ _ _ _ Hr) as Hb. cbn [fbs] in Hb. rewrite Hb in Hb1. inversion Hb1; subst bs.
+  cbn [blocks bstep] in Hb2. exists st, v. auto.
+Qed.
+
 End SF.
 
 (* ---------- the switches are parameters of the callee only (definitional frame lemmas) ---------- *)
